@@ -18,7 +18,8 @@ EXPLANATION = (
     "literal has a constructor arm in parse1/parse2/parse_many and every arm is reachable from the grammar, "
     "(5) every token parser is preceded by the blank skipper. Decides these structural necessary conditions, "
     "not tree equality for every input."
-    " BUDGET: the parser's per-thread nesting budget guard charges only on the granted edge and its token's Drop gives the unit back (acceptance does not depend on earlier refusals).")
+    " BUDGET: the parser's per-thread nesting budget guard charges only on the granted edge and its token's Drop gives the unit back (acceptance does not depend on earlier refusals)."
+    " R5-look: a token's negative look-ahead over punctuation excludes nothing the following operand can begin with (FIRST sets over the reconstructed grammar).")
 RULE_TEXT = ("instances = (level, spelling) pairs, alt groups, token parsers, constructor arms; non-trivial = "
              "those needing a table comparison or dominance/shape argument")
 TRUSTED = ["nom ordered-choice/many0 semantics as documented", "rustc MIR construction", "milu/readme.md table is the documented grammar"]
